@@ -33,6 +33,8 @@ type gctx struct {
 	vid  uint64
 	wg   sync.WaitGroup
 	note []string
+	// afterClose, when set by a scenario, runs after the store was closed and fsck'ed
+	afterClose func()
 }
 
 const gT = 4 * time.Second
@@ -448,6 +450,16 @@ func runGated(c run.Ctx, res *core.CaseResult, prop string) *core.CaseResult {
 	if prop == "C06" {
 		scens = gatedC06
 	}
+	var cons *c13Cons
+	switch prop {
+	case "C13":
+		scens = gatedC13
+		cons = &c13Cons{}
+	case "C14":
+		scens = gatedC14
+	case "C17":
+		scens = gatedC17
+	}
 	sc := scens[(c.Index/8)%len(scens)]
 	r := gen.Rng(c.Seed, propStream(prop+"gated"), uint64(c.Index))
 	cfg := gen.Config{Primary: gen.MH, Bits: []uint8{8, 9, 12}[r.IntN(3)], IndexFileSize: []uint32{100, 1024}[r.IntN(2)], PrimaryFileSize: []uint32{300, 4096}[r.IntN(2)], FileCache: []int{0, 2, 512}[r.IntN(3)]}
@@ -476,6 +488,9 @@ func runGated(c run.Ctx, res *core.CaseResult, prop string) *core.CaseResult {
 	rt.NeedGoid = true
 	rt.Install()
 	defer hookrt.Uninstall()
+	if cons != nil {
+		cons.install(rt, env)
+	}
 	s, err := env.Open()
 	if err != nil {
 		res.Violate("open-error", "gated-open-error", 0, nil, "open: %v", err)
@@ -508,6 +523,12 @@ func runGated(c run.Ctx, res *core.CaseResult, prop string) *core.CaseResult {
 				}
 				res.Violate("fsck", sigp+"fsck-"+pr.Clause, 0, nil, "[after gated scenario %s] %s", sc.name, pr)
 			}
+		}
+		if cons != nil {
+			cons.final(res, env, sigp)
+		}
+		if g.afterClose != nil {
+			g.afterClose()
 		}
 	})
 	if p != nil {
